@@ -147,8 +147,8 @@ def cnode(m):
         return None if b is None else f'(NStr {cb(b)})'
     if 'bytes' in m:
         h = m['bytes']
-        if len(h) % 2:
-            return None
+        if len(h) % 2 or h != h.lower():
+            return None                     # (upper-case digits are printed as they are: not fmt_tokens' text)
         return f'(NByt {cb(bytes.fromhex(h))})'
     t = tags().get(m['prim'])
     if t is None or t > 0x9e:
@@ -259,7 +259,9 @@ class Gen:
     def bytes_(self):
         r = self.r
         n = r.choice([0, 0, 1, 2, 3, 8, 20, 33])
-        return bytes(r.getrandbits(8) for _ in range(n)).hex()
+        h = bytes(r.getrandbits(8) for _ in range(n)).hex()
+        k = r.random()
+        return h.upper() if k < 0.1 else (''.join(r.choice([c, c.upper()]) for c in h) if k < 0.2 else h)
 
     def leaf(self, wide=False):
         k = self.r.random()
@@ -368,6 +370,12 @@ class Gen:
         return s
 
     def root(self, wide=False):
+        while True:
+            kind, e = self.root1(wide)
+            if in_domain(e) or kind == 'sections':
+                return kind, e
+
+    def root1(self, wide=False):
         r = self.r
         d = r.choice([1, 2, 2, 3, 3, 4])
         k = r.random()
@@ -453,7 +461,7 @@ def sweep():
         out.append(('sweep-string', [{'string': c + 'a'}, {'string': c + c}]))
     for i in list(range(-12, 13)) + [99, 100, 101, -99, -100, -101, 10 ** 18, -10 ** 18, 2 ** 64, -2 ** 64, 10 ** 50, -10 ** 50 - 1]:
         out.append(('sweep-int', P('Pair', [{'int': str(i)}, {'int': str(-i)}])))
-    for b in ['', '00', 'ff', '0001', 'deadbeef', '00' * 33]:
+    for b in ['', '00', 'ff', '0001', 'deadbeef', 'DEADBEEF', 'aBcDeF09', '00' * 33]:
         out.append(('sweep-bytes', P('Pair', [{'bytes': b}, {'bytes': b}])))
         out.append(('sweep-bytes', {'bytes': b}))
     return out
@@ -587,6 +595,26 @@ def roundtrip_oracle(e, inline):
     return text, None
 
 
+# what valid Michelson puts, with arguments or annotations, in ARGUMENT position of an application: types and data
+# constructors (fixed here, independent of /repo's is_framed)
+ARG_APPLICATIONS = set(UNARY_TYPES + BINARY_TYPES + SIZED_TYPES + ['pair', 'Pair', 'Left', 'Right', 'Some', 'constant', 'Lambda_rec', 'Ticket'])
+
+
+def in_domain(e):
+    """the property's domain as far as shapes go: argument-position applications are types or data constructors
+    (simple types carry annotations only), and the root is not a single-section list"""
+    if not in_domain_root(e):
+        return False
+    for n, in_arg in walk(e):
+        if in_arg and isinstance(n, dict) and 'prim' in n and (n.get('args') or n.get('annots')):
+            if n['prim'] in ARG_APPLICATIONS:
+                continue
+            if n['prim'] in SIMPLE_TYPES and not n.get('args'):
+                continue
+            return False
+    return True
+
+
 def in_domain_root(e):
     """the root is not a list holding exactly one parameter/storage/code section (prints as the bare section)"""
     return not (isinstance(e, list) and len(e) == 1 and isinstance(e[0], dict) and e[0].get('prim') in ('parameter', 'storage', 'code'))
@@ -637,7 +665,7 @@ def shrink(e, inline, budget=400):
     """greedy reduction of a failing expression while the round-trip oracle keeps failing (staying inside
     the domain and outside the known-finding classes)"""
     def fails(c):
-        if not in_domain_root(c) or finding_class(c):
+        if not in_domain(c) or finding_class(c):
             return False
         return roundtrip_oracle(c, inline)[1] is not None
     progress = True
@@ -741,15 +769,18 @@ def run(ctx: lib.Ctx) -> None:
                     ctx.corpus_cases += 1
     for kind, e in sweep():
         exprs.append((kind, e, True))
-    for _ in range(ctx.n(300, 6000)):
+    for _ in range(ctx.n(300, 4500)):
         kind, e = gen.root()
         exprs.append((kind, e, True))
-    for _ in range(ctx.n(40, 800)):
+    for _ in range(ctx.n(40, 600)):
         kind, e = gen.root(wide=True)
         exprs.append((kind + '-wide', e, True))
-    for _ in range(ctx.n(80, 1500)):
+    for _ in range(ctx.n(80, 1000)):
         exprs.append(('wild', gen.wild(rng.choice([1, 2, 3])), False))
 
+    for kind, e, structured in exprs:
+        if structured and kind not in ('corpus', 'sections', 'sections-wide') and not in_domain(e):
+            raise lib.InternalError(f'generator produced an expression outside the domain: {kind} {e!r}')
     texts = {}                         # text -> origin
     known_hits = {}
     for kind, e, structured in exprs:
@@ -805,7 +836,7 @@ def run(ctx: lib.Ctx) -> None:
     # ---- texts: re-laid-out, mutated, corner cases ------------------------------------------------------
     base = [t for t in texts if len(t) < 600]
     rng.shuffle(base)
-    for t in base[:ctx.n(150, 3000)]:
+    for t in base[:ctx.n(150, 2500)]:
         toks = py_lex(t)
         if not toks:
             continue
@@ -819,7 +850,7 @@ def run(ctx: lib.Ctx) -> None:
                     {'text': t, 'relayout': t2, 'parsed': repr(r1[1])[:300], 'parsed_relayout': repr(r2[1])[:300],
                      'repro': f'from pytezos.michelson.parse import michelson_to_micheline as p; assert p({t!r}) == p({t2!r})'})
     short = [t for t in base if len(t) <= 300] or ['DROP']
-    for i in range(ctx.n(300, 6000)):
+    for i in range(ctx.n(300, 5000)):
         m = mutate(rng, short[i % len(short)])
         if m.count('\\') <= 12:
             texts.setdefault(m, 'mutated')
